@@ -114,7 +114,9 @@ impl ProcessState {
         // Byte 0 of the lock file is reserved (no File has id 0).
         let mut init_lock = Lock::new(lock_manager.clone(), 0);
         init_lock.wait_lock(LockType::Exclusive)?;
-        let must_create = !dbfile.exists();
+        // A database file without tables is what a process killed while it
+        // was creating the database leaves behind; create the tables in it.
+        let must_create = !dbfile.exists() || !has_schema_table(&e, &dbfile)?;
         // A transaction that is going to write must take the write lock up
         // front: upgrading a read transaction fails with SQLITE_BUSY_SNAPSHOT
         // (which the busy timeout does not retry) if anyone else committed
@@ -146,7 +148,6 @@ impl ProcessState {
                 }
                 tx
             } else {
-                helpers::unlink(&dbfile).map_err(RedoError::opaque_error)?;
                 db = connect(&e, &dbfile)
                     .map_err(|e| RedoError::new(format!("could not connect: {}", e)))?;
                 let tx = db
@@ -353,6 +354,20 @@ impl<'a> Drop for ProcessTransaction<'a> {
             let _ = self.finish_();
         }
     }
+}
+
+/// Reports whether the database at `dbfile` has been initialized.
+fn has_schema_table<P: AsRef<Path>>(env: &Env, dbfile: P) -> Result<bool, RedoError> {
+    let db =
+        connect(env, dbfile).map_err(|e| RedoError::new(format!("could not connect: {}", e)))?;
+    let n: i64 = db
+        .query_row(
+            "select count(*) from sqlite_master where type = 'table' and name = 'Schema'",
+            [],
+            |row| row.get(0),
+        )
+        .map_err(|e| RedoError::wrap(e, "schema check failed"))?;
+    Ok(n > 0)
 }
 
 fn connect<P: AsRef<Path>>(env: &Env, dbfile: P) -> rusqlite::Result<Connection> {
